@@ -345,6 +345,7 @@ func (p *Proxy) handleCONNECT(r responder.Responder, proxyReq *http.Request) err
 		// Every exchange gets its own responder: the responder owns the response under construction
 		// (headers, Content-Length), which must not carry over into the next exchange on the tunnel.
 		responder := responder.NewRawHTTPResponder(tlsConn)
+		responder.ForRequest(req)
 
 		req.Close = true
 		if err := p.handleHTTP(responder, req); err != nil {
